@@ -45,11 +45,11 @@ def copy_master(master, dst):
 
 
 STORE_DIRS = {
-    "stage-transfer": ["cache"], "index-save": ["cache"], "store-to-store": ["dest"], "upload-staging": ["cache"],
+    "stage-transfer": ["cache"], "index-save": ["cache"], "index-save-sparse": ["cache"], "store-to-store": ["dest"], "upload-staging": ["cache"],
     "push-remote": ["dest"], "push-expanded": ["dest"], "add-files": ["cache"],
 }
 NEEDS_SRC = {"store-to-store", "push-remote", "push-expanded"}
-HAS_STATE = {"stage-transfer", "index-save", "store-to-store", "upload-staging", "add-files"}
+HAS_STATE = {"stage-transfer", "index-save", "index-save-sparse", "store-to-store", "upload-staging", "add-files"}
 
 
 def make_master(ctx, rng, scenario, d):
